@@ -313,3 +313,280 @@ Definition run_case (L : lut) (c : case) : list Z :=
                         (pxdelta (fun a => lookupq a (c_exp c)))
                         (fun t => lookupq t (c_eta c))
                         L (c_setup c) (c_medium c) (c_events c)).
+
+(* ======================================================================
+   load.py: files, identifier registry, LUT arrays in memory
+   ====================================================================== *)
+(* names (paths and identifiers share one namespace: get_lut_path tests
+   "is it an existing path" first) are coded as integers *)
+Definition name := Z.
+
+Inductive err := EValueError | EAssertionError | EKeyError | EFileNotFound.
+Inductive res (A : Type) := Ok (a : A) | Err (e : err).
+Arguments Ok {A} a.
+Arguments Err {A} e.
+
+(* feature codes: 0 deform, 1 area_um, 2 emodulus, 3 volume, 4 any other
+   existing scalar feature, anything else: not a scalar feature.
+   unit codes: 0 "", 1 "um^2", 2 "kPa", 3 "um^3", anything else: other *)
+Record lutfile := mkFile {
+  f_cw_unit_ok : bool;          (* meta["channel_width_unit"] == "um" *)
+  f_fr_unit_ok : bool;          (* meta["flow_rate_unit"] == "uL/s" *)
+  f_visc_unit_ok : bool;        (* meta["fluid_viscosity_unit"] == "mPa s" *)
+  f_ident : option name;        (* meta.get("identifier") *)
+  f_cols : list (Z * Z);        (* header: (feature, unit) per column *)
+  f_cw : Q; f_fr : Q; f_visc : Q;
+  f_rows : list node            (* np.loadtxt *)
+}.
+
+Record meta := mkMeta {
+  m_cols : list Z;              (* meta["column features"] *)
+  m_cw : Q; m_fr : Q; m_visc : Q;
+  m_ident : option name
+}.
+
+Definition scalar_feature_exists (c : Z) : bool := (0 <=? c)%Z && (c <=? 4)%Z.
+
+Definition unit_ok (col : Z * Z) : bool :=
+  let (ft, un) := col in
+  if (ft =? 0)%Z then (un =? 0)%Z
+  else if (ft =? 1)%Z then (un =? 1)%Z
+  else if (ft =? 2)%Z then (un =? 2)%Z
+  else if (ft =? 3)%Z then (un =? 3)%Z
+  else false.                   (* "Please add sanity check for ..." *)
+
+(* the header line is split at tabs after stripping "# " only: a last column
+   WITHOUT a unit keeps its newline and is never recognised as a feature *)
+Fixpoint header_ok (cols : list (Z * Z)) : bool :=
+  match cols with
+  | [] => true
+  | [(ft, un)] => scalar_feature_exists ft && negb (un =? 0)%Z
+  | (ft, _) :: r => scalar_feature_exists ft && header_ok r
+  end.
+
+(* load_mtext: header features must be scalar features (ValueError), then
+   the unit assertions *)
+Definition load_mtext (f : lutfile) : res (list node * meta) :=
+  if negb (header_ok (f_cols f))
+  then Err EValueError
+  else if negb (f_cw_unit_ok f && f_fr_unit_ok f && f_visc_unit_ok f
+                && forallb unit_ok (f_cols f))
+       then Err EAssertionError
+       else Ok (f_rows f,
+                mkMeta (map fst (f_cols f)) (f_cw f) (f_fr f) (f_visc f)
+                       (f_ident f)).
+
+Fixpoint zlookup {A} (k : Z) (l : list (Z * A)) : option A :=
+  match l with
+  | [] => None
+  | (k', v) :: r => if (k =? k')%Z then Some v else zlookup k r
+  end.
+
+Fixpoint nlookup {A} (k : N) (l : list (N * A)) : option A :=
+  match l with
+  | [] => None
+  | (k', v) :: r => if (k =? k')%N then Some v else nlookup k r
+  end.
+
+(* the world: files on disk, built-in tables, EXTERNAL_LUTS, and the arrays
+   that exist in memory (the caller's (array, meta) tables and whatever
+   get_emodulus allocates) *)
+Record world := mkWorld {
+  w_files : list (name * lutfile);
+  w_internal : list (name * name);     (* identifier -> file *)
+  w_ext : list (name * name);          (* EXTERNAL_LUTS: identifier -> path *)
+  w_heap : list (N * list node);
+  w_next : N
+}.
+
+Definition hread (w : world) (a : N) : list node :=
+  match nlookup a (w_heap w) with Some r => r | None => [] end.
+
+(* in-place write / allocation: the newest binding of an address counts *)
+Definition hwrite (w : world) (a : N) (rows : list node) : world :=
+  mkWorld (w_files w) (w_internal w) (w_ext w) ((a, rows) :: w_heap w)
+          (w_next w).
+
+Definition alloc (w : world) (rows : list node) : world * N :=
+  (mkWorld (w_files w) (w_internal w) (w_ext w)
+           ((w_next w, rows) :: w_heap w) (N.succ (w_next w)),
+   w_next w).
+
+(* get_lut_path: an existing path wins, then built-in identifiers, then
+   registered ones *)
+Definition get_lut_path (w : world) (x : name) : res name :=
+  match zlookup x (w_files w) with
+  | Some _ => Ok x
+  | None =>
+      match zlookup x (w_internal w) with
+      | Some p => Ok p
+      | None =>
+          match zlookup x (w_ext w) with
+          | Some p => Ok p
+          | None => Err EValueError
+          end
+      end
+  end.
+
+Inductive lutdata :=
+| DTuple (a : N) (m : meta)      (* (ndarray at address a, meta dict) *)
+| DName (x : name).              (* path or identifier *)
+
+(* load_lut: always a fresh array (np.array(copy=True) | np.loadtxt) *)
+Definition load_lut (w : world) (d : lutdata) : world * res (N * meta) :=
+  match d with
+  | DTuple a m => let (w', a') := alloc w (hread w a) in (w', Ok (a', m))
+  | DName x =>
+      match get_lut_path w x with
+      | Err e => (w, Err e)
+      | Ok p =>
+          match zlookup p (w_files w) with
+          | None => (w, Err EFileNotFound)
+          | Some f =>
+              match load_mtext f with
+              | Err e => (w, Err e)
+              | Ok (rows, m) => let (w', a') := alloc w rows in (w', Ok (a', m))
+              end
+          end
+      end
+  end.
+
+(* register_lut(path, identifier=None) *)
+Definition register_lut (w : world) (path : name) (ident : option name)
+  : world * res unit :=
+  let id :=
+      match ident with
+      | Some i => Ok i
+      | None =>
+          match zlookup path (w_files w) with
+          | None => Err EFileNotFound
+          | Some f =>
+              match load_mtext f with
+              | Err e => Err e
+              | Ok (_, m) => match m_ident m with
+                             | Some i => Ok i
+                             | None => Err EValueError
+                             end
+              end
+          end
+      end in
+  match id with
+  | Err e => (w, Err e)
+  | Ok i =>
+      match zlookup i (w_ext w), zlookup i (w_internal w) with
+      | Some _, _ => (w, Err EValueError)
+      | None, Some _ => (w, Err EValueError)
+      | None, None =>
+          (mkWorld (w_files w) (w_internal w) ((i, path) :: w_ext w)
+                   (w_heap w) (w_next w), Ok tt)
+      end
+  end.
+
+(* featx, featy, _ = lut_meta["column features"] *)
+Definition select_feat (m : meta) : res feat :=
+  match m_cols m with
+  | [fx; fy; _] =>
+      if ((fx =? 1) && (fy =? 0))%Z then Ok Area
+      else if ((fx =? 3) && (fy =? 0))%Z then Ok Volume
+      else Err EKeyError
+  | _ => Err EValueError          (* cannot unpack *)
+  end.
+
+Definition unnorm (nn : list nnode) : list node :=
+  map (fun n => (fst (fst n), snd (fst n), snd n)) nn.
+
+Section EmodWorld.
+  Variable tri : list pt -> list triangle.
+  Variable delta : feat -> Q -> Q -> Q.
+  Variable eta : Q -> Q.
+
+  (* get_emodulus with its memory effects: the table is loaded into a fresh
+     array, which is then scaled and normalised IN PLACE; nothing else is
+     written (copy=True) *)
+  Definition get_emodulus_w (w : world) (d : lutdata) (S : setup)
+             (m : medium) (evs : list event)
+    : world * res (list (option Q)) :=
+    match load_lut w d with
+    | (w1, Err e) => (w1, Err e)
+    | (w1, Ok (a, mt)) =>
+        match select_feat mt with
+        | Err e => (w1, Err e)
+        | Ok f =>
+            let L := mkLut f (m_cw mt) (m_fr mt) (m_visc mt) (hread w1 a) in
+            match get_emodulus tri delta eta L S m evs with
+            | None => (w1, Err EValueError)
+            | Some r =>
+                let w2 :=
+                    match m with
+                    | MTempArray _ =>
+                        hwrite w1 a (unnorm (normalize_nodes (l_nodes L)))
+                    | MNum v =>
+                        hwrite (hwrite w1 a (scaled_nodes L S v)) a
+                               (unnorm (normalize_nodes (scaled_nodes L S v)))
+                    | MTempScalar t =>
+                        hwrite (hwrite w1 a (scaled_nodes L S (eta t))) a
+                               (unnorm (normalize_nodes
+                                          (scaled_nodes L S (eta t))))
+                    end in
+                (w2, Ok r)
+            end
+        end
+    end.
+
+  Inductive op :=
+  | OCall (d : lutdata) (S : setup) (m : medium) (evs : list event)
+  | ORegister (path : name) (ident : option name).
+
+  Inductive outcome :=
+  | OutCall (r : res (list (option Q)))
+  | OutReg (r : res unit).
+
+  Definition step (w : world) (o : op) : world * outcome :=
+    match o with
+    | OCall d St m evs =>
+        let (w', r) := get_emodulus_w w d St m evs in (w', OutCall r)
+    | ORegister p i =>
+        let (w', r) := register_lut w p i in (w', OutReg r)
+    end.
+
+  Fixpoint run_ops (w : world) (ops : list op) : world * list outcome :=
+    match ops with
+    | [] => (w, [])
+    | o :: r => let (w1, x) := step w o in
+                let (w2, xs) := run_ops w1 r in (w2, x :: xs)
+    end.
+End EmodWorld.
+
+(* ---- evaluation interface: registry / loading bookkeeping ------------- *)
+(* ops: (0, path, ident | -1) register; (1, x, _) get_lut_path + load;
+   observable: 0 ok | 1 ValueError | 2 AssertionError | 3 KeyError |
+   4 FileNotFound, and for a load the resolved file and selected feature *)
+Definition err_code (e : err) : Z :=
+  match e with EValueError => 1 | EAssertionError => 2 | EKeyError => 3
+          | EFileNotFound => 4 end%Z.
+
+Fixpoint run_load_ops (w : world) (ops : list (Z * Z * Z)) : list Z :=
+  match ops with
+  | [] => []
+  | (tag, x, y) :: r =>
+      if (tag =? 0)%Z then
+        let (w', o) := register_lut w x (if (y <? 0)%Z then None else Some y) in
+        (match o with Ok _ => 0 | Err e => err_code e end)%Z
+          :: run_load_ops w' r
+      else
+        let out :=
+            match get_lut_path w x with
+            | Err e => [err_code e]
+            | Ok p =>
+                match load_lut w (DName x) with
+                | (_, Err e) => [err_code e; p]
+                | (_, Ok (_, mt)) =>
+                    match select_feat mt with
+                    | Ok Area => [0; p; 1]
+                    | Ok Volume => [0; p; 3]
+                    | Err e => [err_code e; p]
+                    end
+                end
+            end%Z in
+        out ++ run_load_ops w r
+  end.
